@@ -996,7 +996,42 @@ func fillByEvaluation(p *Prog, fn *ssa.Function) (detail string, decided, good b
 			return "", false, false
 		}
 	}
-	return "evaluated on a node whose position 1 is a variable: the value the caller's map holds for it reaches the factory at that position as the very same (symbolic) value; without an entry the variable's name is kept", true, true
+	// two variables of which the caller fills one (both orders of visiting
+	// them): the other must keep its name, not a placeholder
+	if !strings.Contains(FnName(fn), "ListNode") {
+		for _, order := range [][]string{{"x", "y"}, {"y", "x"}} {
+			in := symInterp(p)
+			in.PathBind["p0.byteSize"] = int64Val(8)
+			in.PathBind["p0.values"] = Val{K: KSlice, S: "p0.values", Len: 3}
+			in.MapKeys["p0.variables"] = []Val{strVal(order[0]), strVal(order[1])}
+			in.InitBind[`p0.variables["x"]`] = int64Val(1)
+			in.InitBind[`p0.variables["y"]`] = int64Val(2)
+			in.MapKeys["p1"] = []Val{strVal("x")}
+			var got []Val
+			in.OnCall = func(call *ssa.Call, callee *ssa.Function, a []Val, fr *frame) {
+				vi := variadicIndex(callee)
+				if fr.fn != fn || !isFactory(callee) || vi < 0 || vi >= len(a) || a[vi].K != KSlice || a[vi].Len != 3 {
+					return
+				}
+				got = []Val{in.Elem(a[vi], 1, ifaceT), in.Elem(a[vi], 2, ifaceT)}
+			}
+			args := defaultArgs(fn)
+			if len(args) > 1 {
+				args[1] = Val{K: KPtr, S: "p1"}
+			}
+			in.Run(fn, args, nil)
+			if len(in.Stuck) > 0 || got == nil {
+				return "", false, false
+			}
+			if !(got[0].K == KSym && got[0].S == `p1["x"]`) {
+				return fmt.Sprintf("with two variables of which one is filled, the factory receives %s at the filled position instead of the caller's value", got[0]), true, false
+			}
+			if !(got[1].K == KIface && got[1].Inner != nil && got[1].Inner.K == KStr && got[1].Inner.S == "y") {
+				return fmt.Sprintf("with two variables of which only x is filled (variables visited in the order %v), the position of y is rebuilt from %s instead of the name y: the unfilled variable is lost", order, got[1]), true, false
+			}
+		}
+	}
+	return "evaluated on a node whose position 1 is a variable: the value the caller's map holds for it reaches the factory at that position as the very same (symbolic) value; without an entry the variable's name is kept, also next to a filled variable and whichever is visited first", true, true
 }
 
 // fillASCIIByEvaluation: the string found in the caller's map for the node's
